@@ -64,7 +64,10 @@ def _block(r, depth: int, partials: bool) -> list:
         elif c < 0.47:
             out.append(["assign", r.choice(NAMES), _val(r)])
         elif c < 0.54:
-            out.append(["capture", r.choice(NAMES), _block(r, depth - 1, partials)])
+            # (a third of the captures render nothing: an empty body, or the output of a name nothing binds - the name is bound
+            # to the empty string all the same)
+            body = _block(r, depth - 1, partials) if r.random() < 0.67 else r.choice([[], [["out", ["nosuch"]]], [["text", ""]]])
+            out.append(["capture", r.choice(NAMES), body])
         elif c < 0.68:
             coll = ["path", _path(r)] if r.random() < 0.6 else ["lit", ["range", [1, r.randint(1, 3)]]]
             out.append(["for", r.choice(NAMES), coll, _block(r, depth - 1, partials)])
